@@ -13,54 +13,54 @@ import (
 	kmip "github.com/ovh/kmip-go"
 )
 
-type shRsaPriv struct {
+type keyShRsaPriv struct {
 	n                      *big.Int
 	d, e, p, q, dp, dq, qi *big.Int // nil = absent
 }
-type shRsaPub struct{ n, e *big.Int }
-type shEcPriv struct {
+type keyShRsaPub struct{ n, e *big.Int }
+type keyShEcPriv struct {
 	curve uint32
 	d     *big.Int
 }
-type shEcPub struct {
+type keyShEcPub struct {
 	curve uint32
 	q     []byte
 }
 
-type shMaterial struct {
+type keyShMaterial struct {
 	bytes, sym *[]byte
-	rsaPriv    *shRsaPriv
-	rsaPub     *shRsaPub
-	ecdsaPriv  *shEcPriv
-	ecdsaPub   *shEcPub
-	ecPriv     *shEcPriv
-	ecPub      *shEcPub
+	rsaPriv    *keyShRsaPriv
+	rsaPub     *keyShRsaPub
+	ecdsaPriv  *keyShEcPriv
+	ecdsaPub   *keyShEcPub
+	ecPriv     *keyShEcPriv
+	ecPub      *keyShEcPub
 }
 
-type shKeyBlock struct {
+type keyShKeyBlock struct {
 	format, comp uint32
 	hasKV        bool
 	wrapped      bool
-	plain        *shMaterial
+	plain        *keyShMaterial
 	attrs        int
 }
 
 // object kinds: nil op te ce sd sk pu pr sp pg
-type shObj struct {
+type keyShObj struct {
 	kind string
 	ty   uint32 // secret data type / certificate type
 	cert []byte
-	kb   shKeyBlock
+	kb   keyShKeyBlock
 }
 
-func bigTok(v *big.Int) string {
+func keyBigTok(v *big.Int) string {
 	if v == nil {
 		return "_"
 	}
 	return v.String()
 }
 
-func (o *shObj) render(kb *keyBlobs) string {
+func (o *keyShObj) render(kb *keyBlobs) string {
 	switch o.kind {
 	case "nil", "op", "te":
 		return o.kind
@@ -94,18 +94,18 @@ func (o *shObj) render(kb *keyBlobs) string {
 		}
 		rp, ru, dp, du, ep, eu := "_", "_", "_", "_", "_", "_"
 		if t := m.rsaPriv; t != nil {
-			rp = strings.Join([]string{t.n.String(), bigTok(t.d), bigTok(t.e), bigTok(t.p), bigTok(t.q), bigTok(t.dp), bigTok(t.dq), bigTok(t.qi)}, ",")
+			rp = strings.Join([]string{t.n.String(), keyBigTok(t.d), keyBigTok(t.e), keyBigTok(t.p), keyBigTok(t.q), keyBigTok(t.dp), keyBigTok(t.dq), keyBigTok(t.qi)}, ",")
 		}
 		if t := m.rsaPub; t != nil {
 			ru = t.n.String() + "," + t.e.String()
 		}
-		ecp := func(t *shEcPriv) string {
+		ecp := func(t *keyShEcPriv) string {
 			if t == nil {
 				return "_"
 			}
 			return fmt.Sprintf("%d,%s", t.curve, t.d.String())
 		}
-		ecu := func(t *shEcPub) string {
+		ecu := func(t *keyShEcPub) string {
 			if t == nil {
 				return "_"
 			}
@@ -117,7 +117,7 @@ func (o *shObj) render(kb *keyBlobs) string {
 	return fmt.Sprintf("%s %d %d %s", head, k.format, k.comp, kv)
 }
 
-func sampleAttrs(n int) []kmip.Attribute {
+func keySampleAttrs(n int) []kmip.Attribute {
 	var out []kmip.Attribute
 	for i := 0; i < n; i++ {
 		if i%2 == 0 {
@@ -129,14 +129,14 @@ func sampleAttrs(n int) []kmip.Attribute {
 	return out
 }
 
-func cpBig(v *big.Int) *big.Int {
+func keyCpBig(v *big.Int) *big.Int {
 	if v == nil {
 		return nil
 	}
 	return new(big.Int).Set(v)
 }
 
-func (k *shKeyBlock) toGo() kmip.KeyBlock {
+func (k *keyShKeyBlock) toGo() kmip.KeyBlock {
 	out := kmip.KeyBlock{KeyFormatType: kmip.KeyFormatType(k.format), KeyCompressionType: kmip.KeyCompressionType(k.comp)}
 	if !k.hasKV {
 		return out
@@ -148,7 +148,7 @@ func (k *shKeyBlock) toGo() kmip.KeyBlock {
 	}
 	if k.plain != nil {
 		m := k.plain
-		pl := &kmip.PlainKeyValue{Attribute: sampleAttrs(k.attrs)}
+		pl := &kmip.PlainKeyValue{Attribute: keySampleAttrs(k.attrs)}
 		cpb := func(b *[]byte) *[]byte {
 			if b == nil {
 				return nil
@@ -161,22 +161,22 @@ func (k *shKeyBlock) toGo() kmip.KeyBlock {
 			pl.KeyMaterial.TransparentSymmetricKey = &kmip.TransparentSymmetricKey{Key: append([]byte{}, (*m.sym)...)}
 		}
 		if t := m.rsaPriv; t != nil {
-			pl.KeyMaterial.TransparentRSAPrivateKey = &kmip.TransparentRSAPrivateKey{Modulus: *cpBig(t.n), PrivateExponent: cpBig(t.d), PublicExponent: cpBig(t.e),
-				P: cpBig(t.p), Q: cpBig(t.q), PrimeExponentP: cpBig(t.dp), PrimeExponentQ: cpBig(t.dq), CRTCoefficient: cpBig(t.qi)}
+			pl.KeyMaterial.TransparentRSAPrivateKey = &kmip.TransparentRSAPrivateKey{Modulus: *keyCpBig(t.n), PrivateExponent: keyCpBig(t.d), PublicExponent: keyCpBig(t.e),
+				P: keyCpBig(t.p), Q: keyCpBig(t.q), PrimeExponentP: keyCpBig(t.dp), PrimeExponentQ: keyCpBig(t.dq), CRTCoefficient: keyCpBig(t.qi)}
 		}
 		if t := m.rsaPub; t != nil {
-			pl.KeyMaterial.TransparentRSAPublicKey = &kmip.TransparentRSAPublicKey{Modulus: *cpBig(t.n), PublicExponent: *cpBig(t.e)}
+			pl.KeyMaterial.TransparentRSAPublicKey = &kmip.TransparentRSAPublicKey{Modulus: *keyCpBig(t.n), PublicExponent: *keyCpBig(t.e)}
 		}
 		if t := m.ecdsaPriv; t != nil {
 			//nolint:staticcheck
-			pl.KeyMaterial.TransparentECDSAPrivateKey = &kmip.TransparentECDSAPrivateKey{RecommendedCurve: kmip.RecommendedCurve(t.curve), D: *cpBig(t.d)}
+			pl.KeyMaterial.TransparentECDSAPrivateKey = &kmip.TransparentECDSAPrivateKey{RecommendedCurve: kmip.RecommendedCurve(t.curve), D: *keyCpBig(t.d)}
 		}
 		if t := m.ecdsaPub; t != nil {
 			//nolint:staticcheck
 			pl.KeyMaterial.TransparentECDSAPublicKey = &kmip.TransparentECDSAPublicKey{RecommendedCurve: kmip.RecommendedCurve(t.curve), QString: append([]byte{}, t.q...)}
 		}
 		if t := m.ecPriv; t != nil {
-			pl.KeyMaterial.TransparentECPrivateKey = &kmip.TransparentECPrivateKey{RecommendedCurve: kmip.RecommendedCurve(t.curve), D: *cpBig(t.d)}
+			pl.KeyMaterial.TransparentECPrivateKey = &kmip.TransparentECPrivateKey{RecommendedCurve: kmip.RecommendedCurve(t.curve), D: *keyCpBig(t.d)}
 		}
 		if t := m.ecPub; t != nil {
 			pl.KeyMaterial.TransparentECPublicKey = &kmip.TransparentECPublicKey{RecommendedCurve: kmip.RecommendedCurve(t.curve), QString: append([]byte{}, t.q...)}
@@ -187,7 +187,7 @@ func (k *shKeyBlock) toGo() kmip.KeyBlock {
 }
 
 // toGo builds the library object (nil interface for kind "nil").
-func (o *shObj) toGo() kmip.Object {
+func (o *keyShObj) toGo() kmip.Object {
 	switch o.kind {
 	case "nil":
 		return nil
@@ -195,7 +195,7 @@ func (o *shObj) toGo() kmip.Object {
 		return &kmip.OpaqueObject{OpaqueDataType: 1, OpaqueDataValue: []byte{1}}
 	case "te":
 		//nolint:staticcheck
-		return &kmip.Template{Attribute: sampleAttrs(1)}
+		return &kmip.Template{Attribute: keySampleAttrs(1)}
 	case "ce":
 		return &kmip.Certificate{CertificateType: kmip.CertificateType(o.ty), CertificateValue: append([]byte{}, o.cert...)}
 	case "sd":
@@ -214,15 +214,15 @@ func (o *shObj) toGo() kmip.Object {
 	return nil
 }
 
-func keyBlockFromGo(g *kmip.KeyBlock) shKeyBlock {
-	k := shKeyBlock{format: uint32(g.KeyFormatType), comp: uint32(g.KeyCompressionType)}
+func keyBlockFromGo(g *kmip.KeyBlock) keyShKeyBlock {
+	k := keyShKeyBlock{format: uint32(g.KeyFormatType), comp: uint32(g.KeyCompressionType)}
 	if g.KeyValue == nil {
 		return k
 	}
 	k.hasKV = true
 	k.wrapped = g.KeyValue.Wrapped != nil
 	if pl := g.KeyValue.Plain; pl != nil {
-		m := &shMaterial{}
+		m := &keyShMaterial{}
 		k.attrs = len(pl.Attribute)
 		km := &pl.KeyMaterial
 		if km.Bytes != nil {
@@ -234,58 +234,58 @@ func keyBlockFromGo(g *kmip.KeyBlock) shKeyBlock {
 			m.sym = &b
 		}
 		if t := km.TransparentRSAPrivateKey; t != nil {
-			m.rsaPriv = &shRsaPriv{n: cpBig(&t.Modulus), d: cpBig(t.PrivateExponent), e: cpBig(t.PublicExponent), p: cpBig(t.P), q: cpBig(t.Q),
-				dp: cpBig(t.PrimeExponentP), dq: cpBig(t.PrimeExponentQ), qi: cpBig(t.CRTCoefficient)}
+			m.rsaPriv = &keyShRsaPriv{n: keyCpBig(&t.Modulus), d: keyCpBig(t.PrivateExponent), e: keyCpBig(t.PublicExponent), p: keyCpBig(t.P), q: keyCpBig(t.Q),
+				dp: keyCpBig(t.PrimeExponentP), dq: keyCpBig(t.PrimeExponentQ), qi: keyCpBig(t.CRTCoefficient)}
 		}
 		if t := km.TransparentRSAPublicKey; t != nil {
-			m.rsaPub = &shRsaPub{n: cpBig(&t.Modulus), e: cpBig(&t.PublicExponent)}
+			m.rsaPub = &keyShRsaPub{n: keyCpBig(&t.Modulus), e: keyCpBig(&t.PublicExponent)}
 		}
 		if t := km.TransparentECDSAPrivateKey; t != nil {
-			m.ecdsaPriv = &shEcPriv{curve: uint32(t.RecommendedCurve), d: cpBig(&t.D)}
+			m.ecdsaPriv = &keyShEcPriv{curve: uint32(t.RecommendedCurve), d: keyCpBig(&t.D)}
 		}
 		if t := km.TransparentECDSAPublicKey; t != nil {
-			m.ecdsaPub = &shEcPub{curve: uint32(t.RecommendedCurve), q: append([]byte{}, t.QString...)}
+			m.ecdsaPub = &keyShEcPub{curve: uint32(t.RecommendedCurve), q: append([]byte{}, t.QString...)}
 		}
 		if t := km.TransparentECPrivateKey; t != nil {
-			m.ecPriv = &shEcPriv{curve: uint32(t.RecommendedCurve), d: cpBig(&t.D)}
+			m.ecPriv = &keyShEcPriv{curve: uint32(t.RecommendedCurve), d: keyCpBig(&t.D)}
 		}
 		if t := km.TransparentECPublicKey; t != nil {
-			m.ecPub = &shEcPub{curve: uint32(t.RecommendedCurve), q: append([]byte{}, t.QString...)}
+			m.ecPub = &keyShEcPub{curve: uint32(t.RecommendedCurve), q: append([]byte{}, t.QString...)}
 		}
 		k.plain = m
 	}
 	return k
 }
 
-// objFromGo abstracts a library object (as decoded) back to a shape.
-func objFromGo(g kmip.Object) *shObj {
+// keyObjFromGo abstracts a library object (as decoded) back to a shape.
+func keyObjFromGo(g kmip.Object) *keyShObj {
 	switch v := g.(type) {
 	case nil:
-		return &shObj{kind: "nil"}
+		return &keyShObj{kind: "nil"}
 	case *kmip.OpaqueObject:
-		return &shObj{kind: "op"}
+		return &keyShObj{kind: "op"}
 	//nolint:staticcheck
 	case *kmip.Template:
-		return &shObj{kind: "te"}
+		return &keyShObj{kind: "te"}
 	case *kmip.Certificate:
-		return &shObj{kind: "ce", ty: uint32(v.CertificateType), cert: append([]byte{}, v.CertificateValue...)}
+		return &keyShObj{kind: "ce", ty: uint32(v.CertificateType), cert: append([]byte{}, v.CertificateValue...)}
 	case *kmip.SecretData:
-		return &shObj{kind: "sd", ty: uint32(v.SecretDataType), kb: keyBlockFromGo(&v.KeyBlock)}
+		return &keyShObj{kind: "sd", ty: uint32(v.SecretDataType), kb: keyBlockFromGo(&v.KeyBlock)}
 	case *kmip.SymmetricKey:
-		return &shObj{kind: "sk", kb: keyBlockFromGo(&v.KeyBlock)}
+		return &keyShObj{kind: "sk", kb: keyBlockFromGo(&v.KeyBlock)}
 	case *kmip.PublicKey:
-		return &shObj{kind: "pu", kb: keyBlockFromGo(&v.KeyBlock)}
+		return &keyShObj{kind: "pu", kb: keyBlockFromGo(&v.KeyBlock)}
 	case *kmip.PrivateKey:
-		return &shObj{kind: "pr", kb: keyBlockFromGo(&v.KeyBlock)}
+		return &keyShObj{kind: "pr", kb: keyBlockFromGo(&v.KeyBlock)}
 	case *kmip.SplitKey:
-		return &shObj{kind: "sp", kb: keyBlockFromGo(&v.KeyBlock)}
+		return &keyShObj{kind: "sp", kb: keyBlockFromGo(&v.KeyBlock)}
 	case *kmip.PGPKey:
-		return &shObj{kind: "pg", kb: keyBlockFromGo(&v.KeyBlock)}
+		return &keyShObj{kind: "pg", kb: keyBlockFromGo(&v.KeyBlock)}
 	}
 	return nil
 }
 
-func (o *shObj) naturalType() uint32 {
+func (o *keyShObj) naturalType() uint32 {
 	switch o.kind {
 	case "ce":
 		return 1
@@ -324,7 +324,7 @@ func (kb *keyBlobs) parseKind(s string) ([]byte, error) {
 	return nil, fmt.Errorf("unknown bytes kind %q", s)
 }
 
-func parseBigTok(s string) (*big.Int, error) {
+func keyParseBigTok(s string) (*big.Int, error) {
 	if s == "_" {
 		return nil, nil
 	}
@@ -335,13 +335,13 @@ func parseBigTok(s string) (*big.Int, error) {
 	return v, nil
 }
 
-func parseShObj(kb *keyBlobs, toks []string) (*shObj, error) {
+func keyParseShObj(kb *keyBlobs, toks []string) (*keyShObj, error) {
 	if len(toks) == 0 {
 		return nil, fmt.Errorf("empty object")
 	}
 	switch {
 	case toks[0] == "nil" || toks[0] == "op" || toks[0] == "te":
-		return &shObj{kind: toks[0]}, nil
+		return &keyShObj{kind: toks[0]}, nil
 	case strings.HasPrefix(toks[0], "ce:"):
 		p := strings.Split(toks[0], ":")
 		if len(p) != 3 {
@@ -355,9 +355,9 @@ func parseShObj(kb *keyBlobs, toks []string) (*shObj, error) {
 		if err != nil {
 			return nil, err
 		}
-		return &shObj{kind: "ce", ty: uint32(ty), cert: b}, nil
+		return &keyShObj{kind: "ce", ty: uint32(ty), cert: b}, nil
 	}
-	o := &shObj{kind: toks[0]}
+	o := &keyShObj{kind: toks[0]}
 	if strings.HasPrefix(toks[0], "sd:") {
 		ty, err := strconv.ParseUint(toks[0][3:], 10, 32)
 		if err != nil {
@@ -405,7 +405,7 @@ func parseShObj(kb *keyBlobs, toks []string) (*shObj, error) {
 	if len(s) != 8 {
 		return nil, fmt.Errorf("want 8 material slots, got %d", len(s))
 	}
-	m := &shMaterial{}
+	m := &keyShMaterial{}
 	optBytes := func(t string) (*[]byte, error) {
 		if t == "_" {
 			return nil, nil
@@ -426,28 +426,28 @@ func parseShObj(kb *keyBlobs, toks []string) (*shObj, error) {
 		}
 		var v [8]*big.Int
 		for i := range p {
-			if v[i], err = parseBigTok(p[i]); err != nil {
+			if v[i], err = keyParseBigTok(p[i]); err != nil {
 				return nil, err
 			}
 		}
 		if v[0] == nil {
 			return nil, fmt.Errorf("modulus is mandatory")
 		}
-		m.rsaPriv = &shRsaPriv{n: v[0], d: v[1], e: v[2], p: v[3], q: v[4], dp: v[5], dq: v[6], qi: v[7]}
+		m.rsaPriv = &keyShRsaPriv{n: v[0], d: v[1], e: v[2], p: v[3], q: v[4], dp: v[5], dq: v[6], qi: v[7]}
 	}
 	if s[3] != "_" {
 		p := strings.Split(s[3], ",")
 		if len(p) != 2 {
 			return nil, fmt.Errorf("bad rsa public slot")
 		}
-		n, err1 := parseBigTok(p[0])
-		e, err2 := parseBigTok(p[1])
+		n, err1 := keyParseBigTok(p[0])
+		e, err2 := keyParseBigTok(p[1])
 		if err1 != nil || err2 != nil || n == nil || e == nil {
 			return nil, fmt.Errorf("bad rsa public slot")
 		}
-		m.rsaPub = &shRsaPub{n: n, e: e}
+		m.rsaPub = &keyShRsaPub{n: n, e: e}
 	}
-	ecp := func(t string) (*shEcPriv, error) {
+	ecp := func(t string) (*keyShEcPriv, error) {
 		if t == "_" {
 			return nil, nil
 		}
@@ -459,13 +459,13 @@ func parseShObj(kb *keyBlobs, toks []string) (*shObj, error) {
 		if err != nil {
 			return nil, err
 		}
-		d, err := parseBigTok(p[1])
+		d, err := keyParseBigTok(p[1])
 		if err != nil || d == nil {
 			return nil, fmt.Errorf("bad ec scalar")
 		}
-		return &shEcPriv{curve: uint32(c), d: d}, nil
+		return &keyShEcPriv{curve: uint32(c), d: d}, nil
 	}
-	ecu := func(t string) (*shEcPub, error) {
+	ecu := func(t string) (*keyShEcPub, error) {
 		if t == "_" {
 			return nil, nil
 		}
@@ -481,7 +481,7 @@ func parseShObj(kb *keyBlobs, toks []string) (*shObj, error) {
 		if err != nil {
 			return nil, err
 		}
-		return &shEcPub{curve: uint32(c), q: q}, nil
+		return &keyShEcPub{curve: uint32(c), q: q}, nil
 	}
 	if m.ecdsaPriv, err = ecp(s[4]); err != nil {
 		return nil, err
